@@ -86,6 +86,16 @@ def eval_seq(q, I, bind=None):
     if q.op == "unordered":
         I.havoc.append("iteration order of a set")
         return sorted(eval_set(q.args[0], I, bind), reverse=True)    # an arbitrary order: deliberately NOT the sorted one
+    if q.op == "sorted_by":
+        vals = eval_seq(q.args[0], I, bind)
+        kw = q.args[1]
+        key = kw.get("key")
+        keyfn = None
+        if isinstance(key, tuple) and key and key[0] == "pyfunc" and key[1] in ("str.lower", "str.casefold", "str.upper", "builtins.len"):
+            keyfn = {"str.lower": str.lower, "str.casefold": str.casefold, "str.upper": str.upper, "builtins.len": len}[key[1]]
+        elif key is not None:
+            raise S.Unsupported("sorted with a key function the oracle cannot evaluate")
+        return sorted(vals, key=keyfn, reverse=bool(kw.get("reverse", False)))
     if q.op == "cat":
         return list(eval_seq(q.args[0], I, bind)) + list(eval_seq(q.args[1], I, bind))
     if q.op == "sym":
@@ -125,6 +135,18 @@ def render(t, I, bind=None):
             out.append(repr(eval_value(p.payload, I, bind)))
         elif k == "repr(text)":
             out.append(repr(render(p.payload, I, bind)))
+        elif k == "strcall":
+            v = eval_value(p.payload, I, bind)
+            if p.kw["method"] not in ("replace", "strip", "lstrip", "rstrip", "lower", "upper", "title", "casefold", "format", "encode", "zfill", "center", "ljust", "rjust", "capitalize", "swapcase", "expandtabs"):
+                raise S.Unsupported("str method %s" % p.kw["method"])
+            out.append(str(getattr(str(v), p.kw["method"])(*p.kw["args"])))
+        elif k == "pycall":
+            fn = p.kw["fn"]
+            allowed = {"json.dumps": lambda: __import__("json").dumps, "builtins.repr": lambda: repr, "builtins.ascii": lambda: ascii, "shlex.quote": lambda: __import__("shlex").quote}
+            if fn not in allowed:
+                raise S.Unsupported("library call %s in the generator" % fn)
+            v = eval_value(p.payload, I, bind)
+            out.append(str(allowed[fn]()(v, **{k2: v2 for k2, v2 in (p.kw.get("kwargs") or {}).items() if isinstance(v2, (str, int, bool))})))
         elif k == "join":
             items = eval_seq(p.payload, I, bind)
             for it in items:
